@@ -176,3 +176,19 @@ Proof. exact @ndx_trilu_spec. Qed.
 Print Assumptions C11_take_law.
 Print Assumptions C11_expand_dims_law.
 Print Assumptions C11_tril_triu_law.
+
+(* reshape (ONNX Reshape, allowzero = 0): whenever it succeeds the row-major data are untouched and the element count is
+   preserved — for every mixture of explicit extents, copied extents (0) and one inferred extent (-1); explicit extents are
+   taken as written and 0 copies the input's extent at that position *)
+From ND Require Import Ndx.ReshapeLaw.
+Theorem C11_reshape_law : forall (A : Type) (t : tensor A) target r, ndx_reshape t target = GetItem.Done r ->
+  data r = data t /\ size (shape r) = size (shape t) /\ length (shape r) = length target /\
+  (Tensor.wf t -> Tensor.wf r) /\
+  forall idx d, get r idx d = nth (ravel (shape r) idx) (data t) d.
+Proof. exact @ndx_reshape_spec. Qed.
+Theorem C11_reshape_explicit_extents : forall sh target sh', onnx_reshape_shape sh target = Some sh' ->
+  forall k z, nth_error target k = Some z -> (z <> -1)%Z ->
+    nth k sh' 0%nat = if (z =? 0)%Z then nth k sh 0%nat else Z.to_nat z.
+Proof. exact reshape_explicit_extents. Qed.
+Print Assumptions C11_reshape_law.
+Print Assumptions C11_reshape_explicit_extents.
